@@ -425,8 +425,9 @@ type SpecFun struct {
 }
 
 type GhostVar struct {
-	Name string
-	Type string
+	Name  string
+	Type  string
+	Local bool // not changed by any callee (a counter of the activation's own actions)
 }
 
 type Contract struct {
@@ -452,6 +453,7 @@ type Contract struct {
 	TracedArg  SExpr // traced callees: the key argument recorded in the caller's activation trace
 	TracedRes  SExpr // ... and the result recorded after the call
 	DefaultInv []Clause // invariants for every loop that has no explicit loop clause
+	PanicsOnlyWhen []Clause // may_panic functions: every explicit panic must be justified by one of these conditions
 	Captures   []Clause // closures: facts about the captured variables (checked where the closure is created)
 	Likes      []string // templates: contracts whose clauses are copied into this one
 	CallSites  []CallSiteClause
@@ -475,6 +477,7 @@ type SpecFile struct {
 	Lemmas    []Clause
 	TypeInvs  map[string][]Clause // keyed by type text
 	Guarded   []string
+	TableExceptions []string
 	GlobalInvs []Clause
 	Pragmas   []string // every "trusted"/"assume"-like pragma seen (for the evidence)
 }
@@ -620,6 +623,15 @@ func loadSpecFile(path string, sf *SpecFile) error {
 				return fail(err)
 			}
 			cur.DefaultInv = append(cur.DefaultInv, c)
+		case "panics_only_when":
+			if cur == nil {
+				return fail(fmt.Errorf("panics_only_when outside func"))
+			}
+			c, err := parseClause(rest, cur.Props)
+			if err != nil {
+				return fail(err)
+			}
+			cur.PanicsOnlyWhen = append(cur.PanicsOnlyWhen, c)
 		case "captures":
 			if cur == nil {
 				return fail(fmt.Errorf("captures outside func"))
@@ -778,10 +790,10 @@ func loadSpecFile(path string, sf *SpecFile) error {
 			cur.Pragmas = append(cur.Pragmas, kw)
 		case "ghost":
 			f := strings.Fields(rest)
-			if len(f) != 3 || f[0] != "var" {
-				return fail(fmt.Errorf("ghost var NAME TYPE expected"))
+			if (len(f) != 3 && len(f) != 4) || f[0] != "var" {
+				return fail(fmt.Errorf("ghost var NAME TYPE [local] expected"))
 			}
-			sf.Ghosts = append(sf.Ghosts, GhostVar{f[1], f[2]})
+			sf.Ghosts = append(sf.Ghosts, GhostVar{Name: f[1], Type: f[2], Local: len(f) == 4 && f[3] == "local"})
 			cur = nil
 		case "spec":
 			if !strings.HasPrefix(rest, "fun ") {
@@ -827,6 +839,14 @@ func loadSpecFile(path string, sf *SpecFile) error {
 			} else {
 				sf.Lemmas = append(sf.Lemmas, c)
 			}
+			cur = nil
+		case "table_exception":
+			f := strings.Fields(rest)
+			if len(f) < 1 {
+				return fail(fmt.Errorf("table_exception TABLE.KEY reason"))
+			}
+			sf.TableExceptions = append(sf.TableExceptions, f[0])
+			sf.Pragmas = append(sf.Pragmas, "table_exception: "+rest)
 			cur = nil
 		case "global_inv":
 			c, err := parseClause(rest, nil)
